@@ -88,6 +88,8 @@ class Observer:
         class Calc:
             def __init__(s, mol1, mol2, restr=None):
                 s.real = real_calc(mol1, mol2, restr) if obs.script is None else None
+                obs.calc_args = (np.array(mol1, float), np.array(mol2, float), restr)
+                obs.real_calc = real_calc
 
             def __call__(s, arr):
                 return obs.on_eval(s.real, arr)
@@ -199,7 +201,13 @@ class Observer:
                 ucmp = 'tie'
             else:
                 ucmp = 'le' if u < thr else 'gt'
-        self.ev.append({'op': 'Judge', 'e0': float(e0), 'e1': float(e1), 'verdict': verdict, 'ucmp': ucmp,
+        fresh_ok = True
+        if self.script is None and getattr(self, 'real_calc', None) is not None:
+            # the measure of the held configuration, recomputed by a calculator that has no history
+            m1, m2, restr = self.calc_args
+            f = float(self.real_calc(m1.copy(), m2.copy(), restr)(np.array(self.held_obs, float)))
+            fresh_ok = bool(abs(f - float(e0)) <= 1e-11 * max(1.0, abs(f)))
+        self.ev.append({'op': 'Judge', 'e0': float(e0), 'e1': float(e1), 'verdict': verdict, 'ucmp': ucmp, 'e0fresh': fresh_ok,
                         'u': float(self.draws[-1]) if self.draws else -1.0})
         if verdict:
             self.held_obs = self.last
